@@ -60,7 +60,9 @@ fn one<const K: usize>(rng: &mut Rng, thorough: bool) -> String {
     }
     let mut h = f.clone();
     let g_before = g.clone();
-    let res = catch_unwind(AssertUnwindSafe(|| h.compose::<false, false>(&g)));
+    // both spellings of the un-pruned composition (the VERBOSE variant only adds a progress bar)
+    let verbose = rng.chance(1, 3);
+    let res = catch_unwind(AssertUnwindSafe(|| if verbose { h.compose::<false, true>(&g) } else { h.compose::<false, false>(&g) }));
     out.push_str("C02 compose ");
     enc::afftree(&mut out, &f);
     out.push(' ');
